@@ -152,9 +152,11 @@ class WebSocketOpCode(SerializableEnum):
     :attr Pong: Opcode sent by the client after receiving a Ping
     :attr Text: Message Payload is Text data
     :attr Binary: Message Payload is binary data
+    :attr Continuation: a further fragment of a Text or Binary message
     """
 
     Open = 0xFF # non standard
+    Continuation = 0x0
     Close = 0x8
     Ping = 0x9
     Pong = 0xA
@@ -385,6 +387,8 @@ class WebSocketTemporaryHandler(object):
         self._buffer = buffer
         self._endpt = endpt
         self.closed = False
+        # opcode and payload of a fragmented message that is not complete yet
+        self._fragments = None
 
         self.hostport = hostport
         self.query = query
@@ -453,13 +457,34 @@ class WebSocketTemporaryHandler(object):
             if not frame.flags.mask:
                 raise Exception("client mask bit not set")
 
-            if frame.flags.opcode == WebSocketOpCode.Text:
-                frame.payload = frame.payload.decode("utf-8")
+            opcode = frame.flags.opcode
+            payload = frame.payload
+
+            # a message may be split into fragments: the first frame has
+            # the opcode of the message and fin=0, the remaining ones are
+            # continuation frames and the last one has fin=1. control frames
+            # are never fragmented but may arrive in between. the endpoint
+            # receives the complete message
+            if opcode == WebSocketOpCode.Continuation:
+                if self._fragments is None:
+                    raise Exception("unexpected continuation frame")
+                self._fragments[1] += payload
+                if not frame.flags.fin:
+                    continue
+                opcode, payload = self._fragments
+                self._fragments = None
+            elif not frame.flags.fin and \
+              opcode in (WebSocketOpCode.Text, WebSocketOpCode.Binary):
+                self._fragments = [opcode, bytearray(payload)]
+                continue
+
+            if opcode == WebSocketOpCode.Text:
+                payload = payload.decode("utf-8")
 
             # TODO: catch and close?
-            self._endpt.callback(self, frame.flags.opcode, frame.payload)
+            self._endpt.callback(self, opcode, payload)
 
-            if frame.flags.opcode == WebSocketOpCode.Close:
+            if opcode == WebSocketOpCode.Close:
                 self.close()
 
 def get(path):
